@@ -152,7 +152,8 @@ def main(argv=None):
     # reach at least 5x the quick quota of every class
     quotas = dict(meta.get('quotas', {}).get('quick', {}))
     if args.tier == 'thorough':
-        quotas = {k: 5 * v for k, v in quotas.items()}
+        fixed = set(meta.get('quotas_fixed', []))        # counters of parts whose size does not grow with the tier
+        quotas = {k: (v if k in fixed else 5 * v) for k, v in quotas.items()}
     for name, minimum in quotas.items():
         if agg['counters'].get(name, 0) < minimum:
             inconclusive.append('class quota not met: %s=%d < %d' % (name, agg['counters'].get(name, 0), minimum))
